@@ -401,3 +401,93 @@ pub mod reuse_and_order {
         let _ = (i, e, q, s);
     }
 }
+
+/// two interfaces whose module paths end in the same segment (two versions of one interface, told apart with `as`): every
+/// per-interface table, accessor and arm is keyed by the declaration, never by the last path segment
+pub mod same_last_segment {
+    use super::*;
+
+    pub mod v1 {
+        pub mod admin {
+            use crate::Plain;
+            use sylvia::ctx::{ExecCtx, QueryCtx};
+            use sylvia::cw_std::{Response, StdError};
+            use sylvia::interface;
+
+            #[interface]
+            #[sv::custom(msg = sylvia::cw_std::Empty, query = sylvia::cw_std::Empty)]
+            pub trait Admin {
+                type Error: From<StdError>;
+                #[sv::msg(exec)]
+                fn legacy_set_admin(&self, ctx: ExecCtx, admin: String) -> Result<Response, Self::Error>;
+                #[sv::msg(query)]
+                fn legacy_admin(&self, ctx: QueryCtx) -> Result<Plain, Self::Error>;
+            }
+        }
+    }
+    pub mod v2 {
+        pub mod admin {
+            use sylvia::ctx::{ExecCtx, QueryCtx, SudoCtx};
+            use sylvia::cw_std::{Response, StdError};
+            use sylvia::interface;
+
+            #[sylvia::cw_schema::cw_serde]
+            pub struct AdminList {
+                pub admins: Vec<String>,
+            }
+
+            #[interface]
+            #[sv::custom(msg = sylvia::cw_std::Empty, query = sylvia::cw_std::Empty)]
+            pub trait Admin {
+                type Error: From<StdError>;
+                #[sv::msg(exec)]
+                fn add_admin(&self, ctx: ExecCtx, admin: String) -> Result<Response, Self::Error>;
+                #[sv::msg(query)]
+                fn admin_list(&self, ctx: QueryCtx) -> Result<AdminList, Self::Error>;
+                #[sv::msg(sudo)]
+                fn reset_admins(&self, ctx: SudoCtx) -> Result<Response, Self::Error>;
+            }
+        }
+    }
+
+    pub struct Contract;
+
+    impl v1::admin::Admin for Contract {
+        type Error = StdError;
+        fn legacy_set_admin(&self, _ctx: ExecCtx, admin: String) -> StdResult<Response> {
+            Ok(Response::new())
+        }
+        fn legacy_admin(&self, _ctx: QueryCtx) -> StdResult<Plain> {
+            Ok(Plain {})
+        }
+    }
+    impl v2::admin::Admin for Contract {
+        type Error = StdError;
+        fn add_admin(&self, _ctx: ExecCtx, admin: String) -> StdResult<Response> {
+            Ok(Response::new())
+        }
+        fn admin_list(&self, _ctx: QueryCtx) -> StdResult<v2::admin::AdminList> {
+            Ok(v2::admin::AdminList { admins: vec![] })
+        }
+        fn reset_admins(&self, _ctx: SudoCtx) -> StdResult<Response> {
+            Ok(Response::new())
+        }
+    }
+
+    #[contract]
+    #[sv::messages(v1::admin as AdminV1)]
+    #[sv::messages(v2::admin as AdminV2)]
+    impl Contract {
+        pub fn new() -> Self {
+            Self
+        }
+        #[sv::msg(instantiate)]
+        fn instantiate(&self, _ctx: InstantiateCtx) -> StdResult<Response> {
+            Ok(Response::new())
+        }
+        #[sv::msg(query)]
+        fn owner(&self, _ctx: QueryCtx) -> StdResult<Plain> {
+            Ok(Plain {})
+        }
+    }
+}
